@@ -228,7 +228,7 @@ MANIFEST_TEXT = {
         text="Theorems: point / scalar / ciphertext / key-pair / AE decoders succeed iff exact length and every component decodes (key pair: non-zero secret and public = s^-1 H), re-encoding returns the input bytes, decoding an encoding returns the object, encodings are unique. "
              "Correspondence: all lengths 0..2N, special values and z+k*l in every field, Pod<->typed agreement, grouped ciphertexts with 0..3 handles, extraction = to_elgamal_ciphertext, base64 padding/alphabet/trailing-bit/whitespace variants, JSON key-file variants, writers. "
              "Base64 text form: decode(encode b) = b for every byte string, an accepted text is the encoding of its decoding (canonical padding / alphabet / trailing bits: unique text form), FromStr(Display) = id for every fixed-size type; exercised for all 7 data pods, all 12 proof pods and the typed AE ciphertext. "
-             "PARTIAL: the base64 crate and serde_json are modelled (the model is what is proved canonical), compared differentially; the JSON grammar is differential only; bincode/serde derive forms and the private proof structs' from_bytes are only exercised through verify_proof.",
+             "PARTIAL: the base64 crate and serde_json are modelled (the model is what is proved canonical), compared differentially; the JSON grammar is differential only; serde forms (bincode and serde_json of the six typed objects that derive them) are round-tripped by the harness; the private proof structs' from_bytes are only exercised through verify_proof.",
         note="Trusted: Lean kernel; dalek codec laws assumed; base64/serde_json external."),
     "C13": dict(
         technique="Lean 4 proof (round trip for all keys/nonces/u64 amounts, layout, exact tamper-acceptance condition; generic in the block cipher) + differential interop with an independent AES-128-GCM-SIV written in Lean",
